@@ -16,16 +16,18 @@ Qed.
 
 (* ---------- the band statement in one piece (any Phi) ---------- *)
 Theorem qci_normal_band_full : forall (Phi : Q -> Q) n c l1 r1,
-  let l := (Qfloor (l1 - (1 # 2)) + 1)%Z in
+  let l0 := (Qfloor (l1 - (1 # 2)) + 1)%Z in
   let r := (Qceiling (r1 - (1 # 2)) + 1)%Z in
-  let biased := Qle_bool c (band Phi l (r - 1)) && Qltb (band Phi l (r - 1)) (band Phi l r) in
+  let l := if (r <=? l0)%Z then (r - 1)%Z else l0 in
+  let biased := (l <? r - 1)%Z && Qle_bool c (band Phi l (r - 1)) && Qltb (band Phi l (r - 1)) (band Phi l r) in
   let r' := if biased then (r - 1)%Z else r in
   let full := (l <=? 0)%Z && (n + 1 <=? r')%Z in
   let res := qci_normal (band Phi) n c l1 r1 in
-  (inject_Z l - (1 # 2) <= l1 /\ l1 < inject_Z l + (1 # 2) /\ r1 <= inject_Z r - (1 # 2) /\ inject_Z r - (3 # 2) < r1) /\
+  (inject_Z l0 - (1 # 2) <= l1 /\ l1 < inject_Z l0 + (1 # 2) /\ r1 <= inject_Z r - (1 # 2) /\ inject_Z r - (3 # 2) < r1) /\
+  ((l <= l0)%Z /\ (l < r)%Z /\ (l1 < r1 -> l = l0) /\ (l1 <= r1 -> (l0 <= r)%Z)) /\
   r_lo res = Z.max l 0 /\ r_hi res = Z.min r' (n + 1) /\ r_amb res = (biased && negb full) /\
   r_conf res = (if full then 1 else band Phi l r').
-Proof. intros. split; [apply band_rounding | apply qci_normal_band]. Qed.
+Proof. intros. split; [apply band_rounding | split; [apply band_left | apply qci_normal_band]]. Qed.
 
 (* ---------- the lower mode at the ends of the q range ---------- *)
 Lemma mode_x_q0 : forall n q, q == 0 -> mode_x n q = 0%Z.
@@ -146,11 +148,22 @@ Proof.
       * intros _. exists v. split; [first [exact Ev | reflexivity]|reflexivity].
 Qed.
 
-(* ---------- c <= 0 in the normal branch: the order claim fails ----------
-   With c = 0 the central interval is the single point mu (alpha = 1/2, l1 = r1 = mu); the band
-   rounds out to one bucket, and the left-biased trim accepts the EMPTY band because its mass 0 is
-   >= c = 0 and below the symmetric one: LoOrder = HiOrder.  (The Go code does the same:
-   QuantileCI(31, 0.5, 0) = {LoOrder:16, HiOrder:16, Confidence:0}.) *)
+(* ---------- c <= 0 in the normal branch ----------
+   Before "fix: QuantileCI returns an empty or inverted interval for confidence <= 0 when n > 30"
+   the code had no cap on alpha, no guard for an empty rounded band and no [rBiased > l] in the trim:
+   [qci_normal_pinned] is that older band logic.  With c = 0 (l1 = r1 = mu) its left-biased trim
+   accepts the EMPTY band (mass 0 >= c) and LoOrder = HiOrder — QuantileCI(31, 0.5, 0) was
+   {LoOrder:16, HiOrder:16, Confidence:0}.  The repaired model has 0 <= Lo < Hi <= n+1 for every c
+   (qci_normal_orders). *)
+Definition qci_normal_pinned (cdfband : Z -> Z -> Q) (n : Z) (c l1 r1 : Q) : qres :=
+  let l := (Qfloor (l1 - (1 # 2)) + 1)%Z in
+  let r := (Qceiling (r1 - (1 # 2)) + 1)%Z in
+  let conf := cdfband l r in
+  let ab := cdfband l (r - 1)%Z in
+  let '(conf1, amb1, r1') := if Qle_bool c ab && Qltb ab conf then (ab, true, (r - 1)%Z) else (conf, false, r) in
+  let '(conf2, amb2) := if (l <=? 0)%Z && (n + 1 <=? r1')%Z then (1, false) else (conf1, amb1) in
+  clampR n l r1' conf2 amb2.
+
 Definition ramp (t : Q) : Q := if Qle_bool t 40 then 0 else if Qle_bool 60 t then 1 else (t - 40) / 20.
 
 Lemma ramp_mono : forall a b, a <= b -> ramp a <= ramp b.
@@ -164,11 +177,12 @@ Proof.
          end; unfold Qdiv; change (/ 20) with (1 # 20); lra.
 Qed.
 
-Theorem qci_normal_orders_c0_refuted :
+Theorem qci_normal_pinned_orders_refuted :
   exists (Phi : Q -> Q) n c l1 r1 mu,
     (forall a b, a <= b -> Phi a <= Phi b) /\ c <= 0 /\ l1 <= r1 /\ l1 + r1 == 2 * mu /\
     0 <= mu <= inject_Z n /\ (0 <= n)%Z /\ Phi l1 == (1 - c) / 2 /\
-    let res := qci_normal (band Phi) n c l1 r1 in ~ (r_lo res < r_hi res)%Z.
+    (let res := qci_normal_pinned (band Phi) n c l1 r1 in ~ (r_lo res < r_hi res)%Z) /\
+    (let res := qci_normal (band Phi) n c l1 r1 in (r_lo res < r_hi res)%Z).
 Proof.
   exists ramp, 100%Z, 0, 50, 50, 50. split; [exact ramp_mono|].
   vm_compute. repeat split; discriminate.
